@@ -228,12 +228,22 @@ def observe_loader_case(case, workdir):
             with open(p, 'w', encoding='utf-8') as fh:
                 fh.write(text)
             hp.append(p)
+        # a third file without any version line (what a loader remembers from an earlier file must not fill the gap)
+        p = os.path.join(workdir, 'ann%d_nov.hpoa' % os.getpid())
+        with open(p, 'w', encoding='utf-8') as fh:
+            fh.write(''.join(l + '\n' for l in case['hpoa'][0].splitlines() if not l.startswith('#version')))
+        hp.append(p)
         seen = {}
-        for j in case['order']:
-            r = impl_C16.canon_diseases(hl.load(hp[j % len(hp)]))
-            if (j % len(hp)) in seen and seen[j % len(hp)] != r:
-                direct.append('HPOA file loads differently after another file was loaded with the same loader')
-            seen.setdefault(j % len(hp), r)
+        fresh = {}
+        for j in list(case['order']) + [2, 0, 2]:
+            k = j % len(hp)
+            r = impl_C16.canon_diseases(hl.load(hp[k]))
+            if k not in fresh:
+                fresh[k] = impl_C16.canon_diseases(SimpleHpoaDiseaseLoader(hpo).load(hp[k]))
+            if (k in seen and seen[k] != r) or r != fresh[k]:
+                direct.append(f'HPOA file loads differently after another file was loaded with the same loader (file {k}: version {r["version"]!r}, a fresh loader gives {fresh[k]["version"]!r})')
+                break
+            seen.setdefault(k, r)
         for p in hp:
             os.remove(p)
         # differently configured loaders in one process: the result of (configuration, file) must not depend on
